@@ -41,6 +41,30 @@ def _has_horizontal(prog):
     return '"op": "hm' in __import__("json").dumps(prog)
 
 
+def polars_horizontal_bug_applies(prog, where):
+    """D16 (program feature): a horizontal min/max on Polars whose inputs may be columns that originate from a
+    literal (constant column) or from outer-join padding — Polars then returns a length-1 series (wrong
+    broadcast / ShapeError / wrong aggregate), independently of pydiverse.transform."""
+    from . import kf
+
+    known = {st["out"] for st in prog["steps"]}
+    idxs = kf.ancestors(prog, where) if (isinstance(where, int) and where < len(prog["steps"])) or where in known else list(range(len(prog["steps"])))
+    has_h = False
+    trigger = False
+    for i in idxs:
+        st = prog["steps"][i]
+        for n in kf.walk(st):
+            if n.get("k") == "fn" and n["op"] in ("hmax", "hmin"):
+                has_h = True
+        if st["verb"] == "mutate" and any(not kf.has_col(e) for _n, e in st["kw"]):
+            trigger = True
+        if st["verb"] == "summarize" and any(not kf.has_col(e) for _n, e in st["kw"]):
+            trigger = True
+        if st["verb"] == "join" and st.get("how") in ("left", "full"):
+            trigger = True
+    return has_h and trigger
+
+
 @dataclasses.dataclass
 class Finding:
     kind: str
@@ -345,6 +369,14 @@ def run_program(prog, backends=("pol", "sqlite"), opts=None, be_cache=None) -> O
         for v in M.SAN.drain():
             out.add("san:" + v["inv"], be, None, v["detail"], verb=v["verb"])
         out.stats[be] = {"ref_excluded": ref_excluded}
+    # ---- D16: engine bug exclusion keyed by program feature
+    kept = []
+    for f in out.findings:
+        if f.backend == "pol" and f.kind.startswith(("value:pol", "exc:pol")) and polars_horizontal_bug_applies(prog, f.step):
+            out.excluded["pol"] = "D16"
+            continue
+        kept.append(f)
+    out.findings = kept
     # ---- direct differential (only where REF saw no taint at all): cheap extra oracle
     if "pol" in backends and "sqlite" in backends and opts.get("diff", False):
         for h in probes:
